@@ -269,6 +269,31 @@ def run_world(rep, driver, model, r, tier, splice, hsize, n_eval, dist):
         with concurrent.futures.ThreadPoolExecutor(8) as ex:
             hs = list(ex.map(guarded, jobs))
         rt.join(5)
+        # a burst of tunnels that all end at the same moment: their records reach the collector from many threads at once,
+        # and each must still be reported exactly once
+        n_burst = 250 if tier == "quick" else 1200
+        burst = []
+
+        def open_one(_):
+            try:
+                c, head, extra = e2e.http_connect(lp["http"], "%s:%d" % (LOOP, org.port))
+                if not head.startswith(b"HTTP/1.1 200"):
+                    e2e.close_quiet(c)
+                    return None
+                c.sendall(b"abcd")
+                e2e.recv_exact(c, 4)
+                return c
+            except OSError:
+                return None
+        with concurrent.futures.ThreadPoolExecutor(16) as ex:
+            burst = [c for c in ex.map(open_one, range(n_burst)) if c is not None]
+        burst_src = ["%s:%d" % c.getsockname() for c in burst]
+        for c in burst:                   # all at once
+            try:
+                c.close()
+            except OSError:
+                pass
+        hs += [dict(cls="finished", source=s_, kind="burst", up=4, down=4, target="%s:%d" % (LOOP, org.port), connector="direct", client_first=True, listener="http") for s_ in burst_src]
         time.sleep(1.3)
         live = p.api("live")[1]
         live_src = {x["source"] for x in live}
@@ -398,7 +423,7 @@ def run(tier, seed, replay=None):
         total += run_world(rep, driver, model, r, tier, splice, hsize, n_eval, dist)
     rep.coverage.update({
         "evaluations": n_eval[0], "distinct_nontrivial": total,
-        "rule": "per world (I/O mode x history size %s): 40 (thorough 300) connections from 8 threads on http / socks / reverse listeners: finished tunnels with 0..70000 bytes and early data, denied, refused by the origin, aborted by RST, handshake failures (garbage, partial, nothing), 3-6 MB uploads / downloads towards a receiver that stalls for a second (partial writes and partial splices), 4 tunnels held open for /api/live, a log rotation in the middle" % [w[1] for w in worlds],
+        "rule": "per world (I/O mode x history size %s): 40 (thorough 300) connections from 8 threads on http / socks / reverse listeners: finished tunnels with 0..70000 bytes and early data, denied, refused by the origin, aborted by RST, handshake failures (garbage, partial, nothing), 3-6 MB uploads / downloads towards a receiver that stalls for a second (partial writes and partial splices), 4 tunnels held open for /api/live, a log rotation in the middle, then 250 (thorough 1200) tunnels that all end at the same moment" % [w[1] for w in worlds],
         "input_distribution": dict(dist),
     })
     rep.assumptions = ["access-log lines are read after POST /api/logrotate (the log writer buffers)", "client ports reused within one world are matched by count only"]
